@@ -639,6 +639,9 @@ pub enum SOp {
 pub struct C37Case {
     pub initial: u8,
     pub ops: Vec<SOp>,
+    /// controller-API level history (no wrapper): late reports for removed ids
+    #[serde(default)]
+    pub direct: Option<crate::w_kalman::KCase>,
 }
 
 pub struct C37;
@@ -658,9 +661,32 @@ impl Property for C37 {
             3 => Just(SOp::Yield),
             2 => Just(SOp::YieldOnce),
         ];
-        (1u8..4, prop::collection::vec(op, 1..80)).prop_map(|(initial, ops)| C37Case { initial, ops }).boxed()
+        let direct = (crate::w_kalman::sync_strategy(false), crate::w_kalman::algo_strategy(false), 2u8..=4, any::<u64>())
+            .prop_flat_map(|(sync, algo, n, start_time)| {
+                let ops = prop::collection::vec(
+                    prop_oneof![
+                        6 => (0..n, crate::w_kalman::lattice_snap(false)).prop_map(|(src, s)| crate::w_kalman::KOp::Snap { src, s }),
+                        3 => (0..n, prop_oneof![3 => Just(true), 1 => Just(false)]).prop_map(|(src, usable)| crate::w_kalman::KOp::Usable { src, usable }),
+                        2 => (0..n).prop_map(|src| crate::w_kalman::KOp::Remove { src }),
+                    ],
+                    1..40,
+                );
+                (Just((sync, algo, n, start_time)), ops)
+            })
+            .prop_map(|((mut sync, algo, n, start_time), ops)| {
+                sync.min_agree = 1;
+                crate::w_kalman::KCase { sync, algo, init_freq: 0.0, sources: vec![crate::w_kalman::SrcKind::TwoWay; n as usize], poll_min: 4, poll_max: 10, poll_initial: 4, start_time, ops, closed_loop: false }
+            });
+        prop_oneof![
+            3 => (1u8..4, prop::collection::vec(op, 1..80)).prop_map(|(initial, ops)| C37Case { initial, ops, direct: None }),
+            1 => direct.prop_map(|k| C37Case { initial: 1, ops: vec![], direct: Some(k) }),
+        ]
+        .boxed()
     }
     fn check(case: &C37Case) -> Outcome {
+        if let Some(k) = &case.direct {
+            return check_direct(k);
+        }
         let log: Log = Default::default();
         let violations: Arc<Mutex<Vec<String>>> = Default::default();
         SPY_SHARED.with(|l| *l.borrow_mut() = Some((log.clone(), violations.clone())));
@@ -813,4 +839,39 @@ impl Property for C37 {
         }
         Outcome::pass(interesting).label(if dropped.is_empty() { "no-drop" } else { "with-drop" })
     }
+}
+
+/// C37 (controller API level): data and usability reports that arrive for an id after its removal
+/// must not bring the source back. Uses the Kalman world (no wrapper in between).
+fn check_direct(k: &crate::w_kalman::KCase) -> Outcome {
+    use crate::w_kalman::{KOp, run_case};
+    let ops = crate::rt::run_paused(run_case(k, None));
+    let mut removed: std::collections::HashSet<usize> = Default::default();
+    let mut late = false;
+    for (i, (op, o)) in k.ops.iter().zip(ops.iter()).enumerate() {
+        match op {
+            KOp::Usable { src, .. } | KOp::Snap { src, .. } | KOp::Meas { src, .. } => {
+                if removed.contains(&(*src as usize % k.sources.len())) {
+                    late = true;
+                }
+            }
+            _ => {}
+        }
+        if let Some(used) = &o.used {
+            for u in used {
+                if removed.contains(u) || *u == usize::MAX {
+                    return Outcome::fail("removed-source-used-for-an-estimate", format!("op {i}: source {u} was removed earlier but appears in the used sources {used:?}"));
+                }
+            }
+        }
+        for (src, _, _) in &o.held_before {
+            if removed.contains(src) {
+                return Outcome::fail("removed-source-registered-again", format!("op {i}: the controller holds source {src} again after its removal"));
+            }
+        }
+        if let KOp::Remove { src } = op {
+            removed.insert(*src as usize % k.sources.len());
+        }
+    }
+    Outcome::pass(late).label("direct")
 }
